@@ -1011,7 +1011,11 @@ def run_stream(tier, rng):
     routes = [(".#run touch MARK", 1), (".#de m\n.#run touch MARK\n.#.\n.m", 1), (".#dv c touch\n.#run \\*[c] MARK", 1), (".If inc.frundis", 1),
               (".X ftag -t sh -shell \"touch MARK\"\n.Ft -t sh x", 1), (".X ftag -t sh -shell \"touch MARK\"\n.Bf -t sh\nx\n.Ef", 1),
               (".X ftag -t sh -shell \"touch MARK\"\n.If -as-is -t sh inc.frundis", 1), (".X ftag -t sh -shell touch MARK\n.Sm a\n.Ft -t sh y", 1),
-              (".#if 1\n.#run touch MARK\n.#;", 1), (".Bd\n.#run touch MARK\n.Ed", 1), (".#if 0\n.#run touch MARK\n.#;", 0), (".#de m\n.#run touch MARK\n.#.", 0), ("t", 0)]
+              (".#if 1\n.#run touch MARK\n.#;", 1), (".Bd\n.#run touch MARK\n.Ed", 1),
+              # the same call site reached more than once (a macro called twice, a file included twice, a filter line in a macro, a call in a title)
+              (".#de m\n.#run touch MARK\n.#.\n.m\n.m\n.m", 1), (".If inc.frundis\n.If inc.frundis", 1),
+              (".X ftag -t sh -shell \"touch MARK\"\n.#de f\n.Ft -t sh x\n.#.\n.f\n.f", 1), (".#de m\n.#run true\n.#.\n.m\n.#run touch MARK", 1),
+              (".#de m\n.#run touch MARK\n.#.\n.#de n\n.m\n.m\n.#.\n.n", 1), (".#if 0\n.#run touch MARK\n.#;", 0), (".#de m\n.#run touch MARK\n.#.", 0), ("t", 0)]
     modes = ["-T xhtml -a", "-T xhtml -a -s", "-T latex", "-T latex -s", "-T mom", "-T markdown", "-T xhtml -a -t", "-T latex -t", "-T xhtml -s -o outdir", "-T epub -o outdir"]
     cases, expect = [], {}
     for m in modes:
@@ -1033,7 +1037,7 @@ def run_stream(tier, rng):
         if not x and reach and "skipdiag=1" not in got and "-t" not in case.split(" | ")[0].split():
             return "command skipped without the diagnostic"
         return None
-    st = Stream("S-run-routes", "runroutes", cases, oracle=oracle, describe="13 documents (10 routes to #run / shell filters, 3 unreachable ones) x 10 command lines (formats, standalone, template mode, multi-file, epub) x {restricted, -x}: marker file and diagnostic observed on the real binary")
+    st = Stream("S-run-routes", "runroutes", cases, oracle=oracle, describe="18 documents (15 routes to #run / shell filters, five of them reaching one call site several times, 3 unreachable ones) x 10 command lines (formats, standalone, template mode, multi-file, epub) x {restricted, -x}: marker file and diagnostic observed on the real binary")
     st.impl_only = True
     return st
 
